@@ -19,7 +19,8 @@ RULE = (
     "among filtered available operations or among all raw ready operations, and "
     "an eligible machine, optionally omitting the machine id for single-machine "
     "operations, optionally after read-only queries in that state), optionally preceded by an abandoned partial episode and a "
-    "reset() on the same dispatcher. Oracle: independent feasibility checker on "
+    "reset() on the same dispatcher; optionally a copy.deepcopy of the dispatcher "
+    "is taken mid-run and played to the end separately. Oracle: independent feasibility checker on "
     "dispatcher.schedule.schedule after every dispatch + is_complete exactly "
     "after num_operations dispatches. Mode 'exhaustive': every dispatch history "
     "(all interleavings x machine choices) of a generated instance with <=7 "
@@ -55,7 +56,7 @@ def strategy(tier):
         {
             "mode": st.just("sequence"),
             "inst": inst,
-            "filters": gen.filter_configs(),
+            "filters": gen.filter_configs(custom=True),
             "history": gen.sized_lists(step, 40),
             "pre": st.one_of(st.just(0), st.just(0), st.integers(1, 12)),
         }
@@ -104,7 +105,15 @@ def _sequence(case, ctx):
         ctx.label("after_reset")
     _check_state(ctx, inst, drv.dispatcher, 0, n, "initial")
     jobs_seq = []
+    clone_at = (len(history) * 7 + pre) % (n + 3) if len(history) % 3 == 0 else None
+    clone = None
     for k in range(n):
+        if clone_at == k:
+            # a look-ahead copy of the dispatcher taken here and played to
+            # the end AFTER the original has finished (see below)
+            import copy
+
+            clone = (copy.deepcopy(drv.dispatcher), copy.deepcopy(drv.model), k)
         a, b, r = history[k] if k < len(history) else (0, 0, 0)
         if r & 4:
             # a monitoring client reads the state between dispatches
@@ -123,6 +132,24 @@ def _sequence(case, ctx):
         jobs_seq.append(j)
         _check_state(ctx, inst, drv.dispatcher, k + 1, n, f"after dispatch {k} of ({j},{p}) on {m}")
         ctx.count("steps")
+    if clone is not None:
+        cd, cm, k0 = clone
+        rows = fp.schedule_rows(cd.schedule)
+        ctx.check(
+            sum(len(r) for r in rows) == k0 and cm.count() == k0,
+            "copy-shares-state",
+            f"a deepcopy of the dispatcher taken after {k0} dispatches holds {sum(len(r) for r in rows)} operations after the original went on",
+        )
+        ci = cd.instance
+        for k in range(k0, n):
+            ready = cm.ready()
+            j, p = ready[-1]
+            mm = inst["machines"][j][p][-1]
+            cd.dispatch(ci.jobs[j][p], mm)
+            cm.apply(j, mm)
+            _check_state(ctx, inst, cd, k + 1, n, f"deep copy taken at {k0}, after its dispatch {k} of ({j},{p}) on {mm}")
+        _check_state(ctx, inst, drv.dispatcher, n, n, "original after its deep copy was played to the end")
+        ctx.label("deepcopy")
     ctx.label(*gen.inst_labels(inst))
     ctx.label("filter=" + ("none" if not filters else "+".join(filters)) if not filters or len(filters) == 1 else "filter=composite")
     ctx.nontrivial = (
